@@ -311,12 +311,8 @@ func (w *world) twinObservation() chain.Obs {
 // check compares a pruned node (bc over store) with the twin. Returns the floor the
 // node reports.
 func (w *world) check(bc *blockchain.Blockchain, store db.KeyValueReader, c judgeCtx) uint64 {
-	prefix := ""
-	if c.Crash {
-		prefix = "crash-mid-prune:"
-	} else if c.Name != "live" {
-		prefix = c.Name + ":"
-	}
+	prefix := c.prefix()
+	c.CancelFloors = w.cancelFloors
 	F, err := pruner.OldestRetainedBlock(store)
 	if err != nil {
 		if !errors.Is(err, db.ErrKeyNotFound) || w.pos > 0 {
@@ -334,6 +330,9 @@ func (w *world) check(bc *blockchain.Blockchain, store db.KeyValueReader, c judg
 			why = "block-younger-than-min-age-pruned"
 		}
 		w.violation(prefix+"floor-above-bound:"+why, fmt.Sprintf("oldest retained block %d is above the highest floor the configuration ever allowed (%d)", F, w.bound), map[string]any{"context": c, "floor": F})
+	}
+	if c.Crash && c.Name != "crash-image" && F >= c.Target {
+		c.Crash = false // the resumed prune completed: nothing of the interrupted one may be left
 	}
 	oP := chain.Probe(bc, w.ps)
 	oT := w.twinObservation()
@@ -377,6 +376,10 @@ func (w *world) check(bc *blockchain.Blockchain, store db.KeyValueReader, c judg
 	for _, cl := range classes {
 		ex := fs.byClass[cl]
 		extra := map[string]any{"context": c, "floor": F, "examples": ex, "count": fs.counts[cl]}
+		if cl == classCancelHash {
+			w.violation(cl, fmt.Sprintf("%s: a prune cancelled mid-way stopped at block %d and deleted the hash->number mapping of block %d: StateAtBlockHash(parent of the oldest retained block) is refused although state at floor-1 is documented as retained: %s", c.Name, F, F-1, ex[0]), extra)
+			continue
+		}
 		if cl == classCrashKnown {
 			var ns []uint64
 			for n := range fs.knownN {
@@ -401,7 +404,7 @@ func (w *world) check(bc *blockchain.Blockchain, store db.KeyValueReader, c judg
 
 // crashImages reopens the database as it was after commit k for (a sample of) the
 // commits of one event window, with a freshly seeded floor, and checks each image.
-func (w *world) crashImages(ev eventResult, target uint64, resend func(s *session, bc *blockchain.Blockchain) error) {
+func (w *world) crashImages(ev eventResult, target uint64, hashLost bool, resend func(s *session, bc *blockchain.Blockchain) error) {
 	var ks []int
 	for k := ev.i0 + 1; k < ev.i1; k++ {
 		ks = append(ks, k)
@@ -432,7 +435,7 @@ func (w *world) crashImages(ev eventResult, target uint64, resend func(s *sessio
 		}
 		w.images++
 		w.r.Count("crash_images_checked", 1)
-		c := judgeCtx{Name: "crash-image", Crash: true, Target: target}
+		c := judgeCtx{Name: "crash-image", Crash: true, Target: target, HashLostAtTarget: hashLost}
 		w.logf("  crash image after commit #%d of the window (%d commits)", k-ev.i0, ev.i1-ev.i0)
 		w.check(bc, img, c)
 		if k != resumeAt || resend == nil {
@@ -444,16 +447,21 @@ func (w *world) crashImages(ev eventResult, target uint64, resend func(s *sessio
 			w.r.Inconclusive("watchdog:resume")
 			continue
 		}
-		if err := resend(s, bc); err == nil {
-			if _, qerr := s.quiesce(); qerr != nil {
-				w.r.Inconclusive("watchdog:resume")
-				s.stop()
-				continue
+		wd := false
+		for i := uint64(0); i < w.cfg.L2Per && !wd; i++ { // a fresh pruner coalesces l2HeadsPerPrune head events
+			if err := resend(s, bc); err == nil {
+				if _, qerr := s.quiesce(); qerr != nil {
+					wd = true
+				}
 			}
 		}
 		s.stop()
+		if wd {
+			w.r.Inconclusive("watchdog:resume")
+			continue
+		}
 		w.r.Count("crash_images_resumed", 1)
-		F := w.check(bc, img, judgeCtx{Name: "resumed-after-crash"})
+		F := w.check(bc, img, judgeCtx{Name: "resumed-after-crash", Crash: true, Target: target, HashLostAtTarget: hashLost})
 		if F < target {
 			w.r.Count("resume_did_not_reach_previous_target", 1)
 		}
@@ -506,7 +514,7 @@ func makeConfig(r *lib.Run, idx int, rng *rand.Rand) config {
 
 func runScenario(r *lib.Run, idx int) {
 	rng := lib.Rng("C16/scenario", uint64(idx))
-	w := &world{r: r, idx: idx, rng: rng, l1: -1, stats: map[string]int{}, ps: chain.NewProbeSet(), ix: newIndex(), main: &chain.Chain{}}
+	w := &world{r: r, idx: idx, rng: rng, l1: -1, stats: map[string]int{}, cancelFloors: map[uint64]bool{}, ps: chain.NewProbeSet(), ix: newIndex(), main: &chain.Chain{}}
 	w.cfg = makeConfig(r, idx, rng)
 	cfg := w.cfg
 	defer func() {
@@ -574,8 +582,11 @@ func runScenario(r *lib.Run, idx int) {
 		if ev.cancelled {
 			w.r.Count("prunes_cancelled_mid_way", 1)
 			// live node right after the cancelled prune, then the restarted node
+			if fc, err := pruner.OldestRetainedBlock(w.rec); err == nil && fc > lastF {
+				w.cancelFloors[fc] = true
+			}
 			F := w.check(w.bc.Load(), w.rec, judgeCtx{Name: "cancel-live", RefuseStateBelow: w.bound})
-			w.crashImages(ev, F, nil)
+			w.crashImages(ev, F, true, nil)
 			if !w.restart() {
 				return
 			}
@@ -600,7 +611,7 @@ func runScenario(r *lib.Run, idx int) {
 		}
 		lastF = F
 		if w.batchCommits.Load() > 0 {
-			w.crashImages(ev, F, resend)
+			w.crashImages(ev, F, false, resend)
 		}
 	}
 	armCancel := func() {
